@@ -41,6 +41,18 @@ def install_mco(E):
     stubs.doc("ReferenceClockClient.MeasureClockOffsets (summary)", install_mco.__doc__)
 
 
+def native_feasible(E):
+    """natively the real MeasureClockOffsets runs with a real deadline: give the clocks time to answer"""
+    cs = []
+    for nm, inp in E.inputs.items():
+        base = nm.split("@")[0]
+        if base == "cfg.timeout":
+            cs.append(inp["term"] >= 1000000000)
+        elif base == "sched.arrived":
+            cs.append(inp["term"])
+    return cs
+
+
 ENGINE_CFG = {"time_mode": "ns64", "fp_mul": "exact_const", "time_sub_unchecked": True, "fp_int_abstract": True}
 INSTALL = [sched.install, install_mco]
 HARNESSES = [
@@ -54,6 +66,8 @@ for (a, b, r, th, sfx) in [(0, 0, 2, False, ""), (1, 0, 2, False, ""), (0, 1, 2,
                       "bounds": "%d reference clocks, %d peers, %d rounds, arbitrary offsets/failures/late results" % (a, b, r)})
 for h in HARNESSES:
     h.setdefault("timeout_quick", 240)
+    if h["name"] not in ("lemmas",):
+        h["native_feasible"] = native_feasible
     if h["name"] == "round_0_1":
         h["cfg"] = {"all_arrive": True}
 ASSUMPTIONS = ["int64 <-> float64 conversions are uninterpreted functions constrained by monotonicity / sign / truncation facts; these facts are discharged with exact IEEE-754 semantics by the harness lemmas", "the impact x drift products are uninterpreted (shared between the code and the specification by congruence)",
